@@ -33,6 +33,9 @@ def collect_schema(pid, tier, replay_path, prefixes, wd, rng, quick_cap=2600, fl
             picks = single + sample([p for p in picks if sum(1 for x in p if x > 1) > 1], max(1, quick_cap - len(single)), rng)
         hists = [schemagen.assemble(p) for p in picks]
         log("[%s] MC: %d states; %d declared histories" % (pid, states, len(hists)))
+    if not replay_path:
+        # half of the typed column definitions set their type through the ColumnDef method documented for it (spec/column_methods.json)
+        hists = [schemagen.annotate_methods(h, rng) for h in hists]
     cases = [{"id": i, "history": h} for i, h in enumerate(hists)]
     recs, dt = replay("schema", cases, wd, flavour=flavour)
     # the real SQLite executes the SQLite renderings step by step
@@ -51,6 +54,8 @@ def collect_schema(pid, tier, replay_path, prefixes, wd, rng, quick_cap=2600, fl
     for v in verdicts:
         r = byid[v["id"]]
         for dk in v.get("drift", []): drift[dk] = drift.get(dk, 0) + 1
+        if any(k.startswith("!case_error") for k in v["keys"]):
+            raise ToolError("%s: history %d: %s" % (pid, v["id"], [k for k in v["keys"] if k.startswith("!")]))
         for k in sorted(set(v["keys"])):
             if any(k.startswith(p) for p in prefixes):
                 fails.append((k, {"history": r["history"], "steps": r["steps"], "engine": [{"exec": e["exec"], "msg": e["msg"]} for e in r["engine"]]}))
@@ -76,5 +81,5 @@ def run_schema(pid, tier, replay_path, prefixes):
            "samples": st["samples"], "sqlite_statements_executed": st["neng"], "impl_model_exact": not st["drift"], "drift": st["drift"], "histories_under_option_sqlite_exact_column_type": exact_n}
     return std_finish(pid, tier, t0, V, cov,
                       ["SQLite 3.40.1 catalogue (PRAGMAs) is the observation for C13; the catalogue model's engine rules are re-validated by every run",
-                       "MySQL 8.0 / PostgreSQL 15 DDL grammars and data-type tables as transcribed in EngineDDL.tla; table options (ENGINE, COLLATE, COMMENT) are not compared",
-                       "the implementation-level DDL renderer is not modelled in TLA+: these properties are decided by trace validation only"])
+                       "MySQL 8.0 / PostgreSQL 15 DDL grammars and data-type tables as transcribed in EngineDDL.tla",
+                       "the implementation-level model of the DDL renderers (Schema.tla) is reported as impl_model_exact / drift and never decides"])
